@@ -24,7 +24,7 @@ func vNames() []string {
 	return []string{"a", "b"}
 }
 
-var vPatterns = []string{"a", "b", "ab", "a.*", ".*b", "[ab]"}
+var vPatterns = []string{"a", "b", "ab", "a.*", ".*b", "[ab]", "a.b", "b.a"}
 
 // vGenTree creates a tree of depth <= 2 under root on fs and returns its nodes.
 func vGenTree(fs FS, root string) []vTreeNode {
